@@ -17,6 +17,7 @@ PROPS = {
     'C05': {'units': ['chal'], 'kani': [], 'exclude': r'canonical_width'},
     'C12': {'units': ['bits', 'chal'], 'kani': [], 'only': {'chal': r'canonical_width'}},
     'C15': {'units': ['shape'], 'kani': []},
+    'C11': {'units': ['air', 'run19'], 'kani': [], 'only': {'run19': r'execute_alu_op'}},
 }
 
 TB_COMMON = ['p3 field types satisfy the field laws the lemmas name; machine field arithmetic treated as mathematical',
@@ -101,8 +102,17 @@ META['C12'] = {
             '(characteristic P, embedding of base elements) is an informal step; 64-bit usize.',
 }
 
+META['C11'] = {
+    'technique': 'Verus contracts on extracted real constraint helpers over the free commutative ring (integers) + runner ALU semantics',
+    'text': 'Deductive proof, for every extension degree D and every operand values, that the extension multiplications the ALU constraints are built from compute multiplication in '
+            'F[X]/(X^D - w) (ext_mul_binomial: loop invariant over the D*D partial sums) and in F[X]/(X^5 + X^2 - 1) (ext_mul_quintic_trinomial: existence of the quotient polynomial), '
+            'and that the runner side of each ALU kind (execute_alu_op) leaves exactly the defining relation in the witness table in forward and backward mode.',
+    'note': 'KERNEL ONLY: the selector-gated body of AluAir::eval (which polynomial is asserted zero under which selector), packed/inter-row Horner constraints, Const/Public/Recompose AIRs and the '
+            'Poseidon AIRs are NOT under contract. Ring elements are integers: identities over Z transfer to every commutative ring (trusted). Type erasure of AB::Var/AB::Expr to one ring type.',
+}
+
 NOT_APPLICABLE = {
     'C01': 'whole-verifier equivalence with the external native verifier (p3-uni-stark / p3-batch-stark): needs a relational spec of ~1.5 kLoC of dependency code across four generic traits; no per-function contract within reach expresses it. Its parts are decided under C05/C07/C08/C13/C14/C15/C20.',
 }
-for _p in ['C04', 'C06', 'C07', 'C08', 'C09', 'C10', 'C11', 'C13', 'C14', 'C16', 'C17', 'C18']:
+for _p in ['C04', 'C06', 'C07', 'C08', 'C09', 'C10', 'C13', 'C14', 'C16', 'C17', 'C18']:
     NOT_APPLICABLE.setdefault(_p, 'not reached yet: kernel designed in DESIGN.md §5 but its contracts are not built; not claimed')
